@@ -210,13 +210,13 @@ def script_after_handshake(p, steps=True):
     """short data exchange + orderly close, as two programs (generators)"""
     def client():
         yield from drive.awrite(p.c, b"ping-from-client" * 3)
-        r = yield from drive.aread(p.c, None, 5)
+        r = yield from drive.aread(p.c, None, 48)
         yield from drive.awrite(p.c, b"bye")
         yield from drive.aclose(p.c)
         return r
 
     def server():
-        r = yield from drive.aread(p.s, None, 5)
+        r = yield from drive.aread(p.s, None, 48)
         yield from drive.awrite(p.s, b"pong-from-server" * 3)
         r2 = yield from drive.aread(p.s, None, 3)
         yield from drive.aclose(p.s)
